@@ -914,7 +914,13 @@ CO_ERR COSdoUploadBlock(CO_SDO *srv)
         }
         err = COObjRdBufCont(srv->Obj, srv->Node, srv->Buf.Start + srv->Buf.Num, num);
         if (err != CO_ERR_NONE) {
+            /* the object entry is not readable: no data is sent */
             srv->Node->Error = CO_ERR_SDO_READ;
+            srv->Blk.State   = BLK_IDLE;
+            srv->Buf.Cur     = srv->Buf.Start;
+            srv->Buf.Num     = 0;
+            COSdoAbort(srv, CO_SDO_ERR_HW_ACCESS);
+            return (CO_ERR_SDO_ABORT);
         }
         srv->Buf.Num  += num;
         srv->Blk.Size -= num;
